@@ -46,21 +46,32 @@ func powers(x *lib.XChain) ([]int64, int64) {
 }
 
 // quorumSchedule runs one random vote schedule on a fresh real chain and returns the Coq case.
-func quorumSchedule(rep *lib.Report, tab *extract.Table, r *lib.Rand, chainSeed int64) string {
+// With directed = true the schedule follows the multi-nonce pattern "votes for n+1 reach quorum power before n is
+// observed": 5-6 equal oracles (4 votes = quorum); a group of 4 splits nonce 1 three to one and then all vote X at
+// nonce 2, in a random interleaving that keeps each oracle's own order; a fifth oracle completes nonce 1 and then
+// (mostly) votes a DIFFERENT claim Y at nonce 2; the remaining votes follow in random order.  The quorum-completing
+// and the divergent votes are taken by different oracles / variants from schedule to schedule.
+func quorumSchedule(rep *lib.Report, tab *extract.Table, r *lib.Rand, chainSeed int64, directed bool) string {
 	ct := tab.Get(pendingTypes[r.Intn(len(pendingTypes))])
 	module := []string{"eth", "bsc", "tron", "polygon"}[r.Intn(4)]
 	c := lib.NewChain(chainSeed, 2, nil)
 	x := c.X(module)
 	nOr := 3 + r.Intn(3)
+	if directed {
+		nOr = 5 + r.Intn(2)
+	}
 	stakes := make([]int64, nOr)
 	for i := range stakes {
 		stakes[i] = []int64{10000, 10000, 15000, 20000, 30000, 50000}[r.Intn(6)]
+		if directed {
+			stakes[i] = 10000
+		}
 	}
 	x.SetupOracles(stakes)
 	lib.Must(c.NextBlock())
 
 	g := &gen{r: r, chain: module, noNil: true}
-	avoidKnown := r.Chance(50) // half of the schedules only use variants that differ in hashed fields
+	avoidKnown := r.Chance(50) || directed // half of the schedules only use variants that differ in hashed fields
 	var variants []*variantT
 	hashes := map[string]int{}
 	for nonce := uint64(1); nonce <= 2; nonce++ {
@@ -146,6 +157,47 @@ func quorumSchedule(rep *lib.Report, tab *extract.Table, r *lib.Rand, chainSeed 
 	for i := range next {
 		next[i] = 1
 	}
+	type planned struct {
+		oi    int
+		nonce uint64
+		vi    int
+	}
+	var plan []planned
+	if directed && len(byNonce(1)) >= 2 && len(byNonce(2)) >= 2 {
+		perm := r.Perm(nOr)
+		grp, rest := perm[:4], perm[4:]
+		dissent := r.Intn(4) // which member of the group votes the other claim at nonce 1
+		todo := map[int][]planned{}
+		for k, oi := range grp {
+			v1 := 0
+			if k == dissent {
+				v1 = 1
+			}
+			todo[oi] = []planned{{oi, 1, v1}, {oi, 2, 0}}
+		}
+		for left := 8; left > 0; left-- { // random interleaving, each oracle in its own order
+			oi := grp[r.Intn(4)]
+			for len(todo[oi]) == 0 {
+				oi = grp[r.Intn(4)]
+			}
+			plan = append(plan, todo[oi][0])
+			todo[oi] = todo[oi][1:]
+		}
+		plan = append(plan, planned{rest[0], 1, 0}) // completes nonce 1
+		y := 1
+		if r.Chance(25) {
+			y = 0
+		}
+		plan = append(plan, planned{rest[0], 2, y}) // mostly a different claim for nonce 2
+		for _, oi := range rest[1:] {
+			plan = append(plan, planned{oi, 1, r.Intn(2)}, planned{oi, 2, r.Intn(2)})
+		}
+		for k := 0; k < 2; k++ { // a few stray votes (rejected by the real code)
+			plan = append(plan, planned{r.Intn(nOr), uint64(1 + r.Intn(2)), r.Intn(2)})
+		}
+		nVotes = len(plan)
+		rep.Count("phase3:directed-schedule")
+	}
 	for i := 0; i < nVotes; i++ {
 		oi := r.Intn(nOr)
 		nonce := next[oi]
@@ -154,6 +206,11 @@ func quorumSchedule(rep *lib.Report, tab *extract.Table, r *lib.Rand, chainSeed 
 		}
 		vs := byNonce(nonce)
 		v := vs[r.Intn(len(vs))]
+		if plan != nil {
+			oi, nonce = plan[i].oi, plan[i].nonce
+			vs = byNonce(nonce)
+			v = vs[plan[i].vi%len(vs)]
+		}
 		before := x.Keeper.GetLastObservedEventNonce(c.Ctx)
 		cl := clone(ct, v.claim)
 		err := x.Claim(x.Oracles[oi], cl)
